@@ -55,6 +55,11 @@ fn life_jobs(props: &[&'static str], thorough: bool, read_faults: bool) -> Vec<J
         c.max_holds = if thorough { 1 } else { 0 };
         c
     };
+    // the small scenario first: under a time cap the cheap jobs are the ones that are certain to complete
+    v.push(w(scen::s_park(false), props, if thorough { 3 } else { 2 }, true));
+    if thorough {
+        v.push(w(scen::s_park(true), props, 2, true));
+    }
     if !thorough {
         v.push(w(scen::s_life("S-life/1htlc", false, false, false), props, 3, true));
         v.push(w(scen::s_life("S-life/2htlc", true, false, false), props, 3, true));
@@ -71,10 +76,6 @@ fn life_jobs(props: &[&'static str], thorough: bool, read_faults: bool) -> Vec<J
         c.max_crashes = 2;
         c.max_faults = 2;
         v.push(w(rf(c), props, 3, true));
-    }
-    v.push(w(scen::s_park(false), props, if thorough { 3 } else { 2 }, true));
-    if thorough {
-        v.push(w(scen::s_park(true), props, 2, true));
     }
     v.push(w(rf(scen::s_overlap()), props, if thorough { 4 } else { 2 }, true));
     v.push(w(rf(scen::s_life_xpay()), props, if thorough { 3 } else { 2 }, true));
